@@ -7,6 +7,7 @@ CONSTANTS
   MaxNr = 2
   MinAge = "zero"
   MaxAge = "inf"
+  MaxNrEquality = TRUE
   MaxSerial = 3
   MaxSession = 2
   DeltaChoices <- DeltasAll
